@@ -510,8 +510,9 @@ int _GD_FiniRawIO(DIRFILE *D, const gd_entry_t *E, int fragment, int flags)
         dreturn("%i", -1);
         return -1;
       }
-    } else {
-      /* Move the old file over the new file */
+    } else if (E->e->u.raw.file[1].name != NULL) {
+      /* Move the old file over the new file (there is no new file when the
+       * conversion turned out to be unnecessary) */
       if (_GD_MoveOver(D, fragment, E->e->u.raw.file)) {
         dreturn("%i", -1);
         return -1;
@@ -889,12 +890,12 @@ static void _GD_RecodeFragment(DIRFILE* D, unsigned long encoding, int fragment,
         struct gd_raw_file_ temp;
         memcpy(&temp, raw_entry[i]->e->u.raw.file, sizeof(temp));
 
+        /* discard the old file (closing it with its own encoding) */
+        _GD_FiniRawIO(D, raw_entry[i], fragment, GD_FINIRAW_DISCARD);
+
         raw_entry[i]->e->u.raw.file[0].name = NULL;
         raw_entry[i]->e->u.raw.file[0].subenc =
           raw_entry[i]->e->u.raw.file[1].subenc;
-
-        /* discard the old file */
-        _GD_FiniRawIO(D, raw_entry[i], fragment, GD_FINIRAW_DISCARD);
 
         if ((*_GD_ef[temp.subenc].name)(D,
               (const char*)D->fragment[raw_entry[i]->fragment_index].enc_data,
